@@ -17,6 +17,7 @@ type Access struct {
 	Instr  ssa.Instruction
 	Field  string // "T.f" (nested anonymous structs: "T.f.g")
 	Owner  string // "T"
+	OwnerT *types.Named
 	Type   types.Type
 	Write  bool
 	Kind   string // store | load | map-update | map-delete | elem-store | addr
@@ -44,13 +45,17 @@ func CollectAccesses(c *Ctx) []Access {
 			if key == "" || ir.IsSyncType(typ) {
 				return
 			}
+			ownerT := ir.FullFieldOwner(fa)
+			if !ir.InLibrary(ownerT) {
+				return
+			}
 			if _, isStruct := typ.Underlying().(*types.Struct); isStruct {
 				if _, named := typ.(*types.Named); !named {
 					return // by-value anonymous struct: its fields are reported individually
 				}
 			}
 			mk := func(at ssa.Instruction, write bool, kind string) {
-				out = append(out, Access{Fn: fn, Instr: at, Field: key, Owner: owner, Type: typ, Write: write, Kind: kind,
+				out = append(out, Access{Fn: fn, Instr: at, Field: key, Owner: owner, OwnerT: ownerT, Type: typ, Write: write, Kind: kind,
 					Local: ir.BaseAlloc(base), Base: ir.Path(base), Locks: ls.At(at), Init: isInit, Pos: at.Pos()})
 			}
 			refs := fa.Referrers()
@@ -113,33 +118,3 @@ func CollectAccesses(c *Ctx) []Access {
 	return out
 }
 
-// structHasMutex reports whether the named struct type T of the library has a mutex field.
-func structMutexes(c *Ctx, owner string) []string {
-	for _, pk := range c.P.Pkgs {
-		if o, ok := pk.Types.Scope().Lookup(owner).(*types.TypeName); ok {
-			if n, ok := o.Type().(*types.Named); ok {
-				if ms := lockset.MutexFields(n); len(ms) > 0 {
-					return ms
-				}
-				// nested anonymous struct fields holding a mutex (getSSEConn.mutex)
-				if st, ok := n.Underlying().(*types.Struct); ok {
-					var out []string
-					for i := 0; i < st.NumFields(); i++ {
-						if ist, ok := st.Field(i).Type().Underlying().(*types.Struct); ok {
-							if _, named := st.Field(i).Type().(*types.Named); named {
-								continue
-							}
-							for j := 0; j < ist.NumFields(); j++ {
-								if ir.IsMutexType(ist.Field(j).Type()) {
-									out = append(out, "<anon>."+ist.Field(j).Name())
-								}
-							}
-						}
-					}
-					return out
-				}
-			}
-		}
-	}
-	return nil
-}
